@@ -88,6 +88,8 @@ def main():
         chk.violation("model-build", "Coq model does not compile: " + log[-1500:], {"kind": "model-build"}, found=False)
         return chk.finish()
     base = vlib.scratch("verif-c18-")
+    # the implementation cache may be pruned by a concurrent check: run private copies of the binaries
+    exe = shutil.copy2(exe, os.path.join(base, "harness-bin")); shim = shutil.copy2(shim, os.path.join(base, "shim-bin"))
 
     def rand_chunks(n):
         return [rng.choice([1, 1, 2, 3, 3, 5, 5, 7, 4, 6, 11]) for _ in range(n)]
